@@ -6,9 +6,9 @@ REAL `array!` / `array_flat!` / `array_single!` / constructor macros, one functi
 `format!("{:?}", vec![…])` the macro arm formats (the Debug text the string surgery starts from), and a table pairing
 each literal with the nested structure it was generated from (shape, leaf texts, expected elements).
 
-The set is fixed (no seed): every shape of rank 1..4 with axis lengths 1..3 for i32, every shape of rank 1..4 with
-lengths 1..2 (plus some with 3 and 4) for f64, bool, char, String, Tuple2, Tuple3, List, the multi-argument and flat
-forms, element texts with separators/brackets/escapes, and the flat/single/constructor macros next to the functions
+The set is fixed (no seed): every shape of rank 1..4 with axis lengths 1..3 once, dealt over the element types i32,
+f64, bool, char, String, Tuple2, Tuple3, List; for each of these types additionally every shape of rank 1..3 with
+lengths 1..2 (plus some with 3 and 4); the multi-argument and flat forms; element texts with separators/brackets/escapes, and the flat/single/constructor macros next to the functions
 they stand for.  Regenerate with `python3 harness/gen_c18_literals.py` (output is committed; `./check` only compiles it).
 
 Layout (measured, DESIGN Appendix A): one function per literal, spread over many modules; never many literals in one
@@ -219,22 +219,28 @@ def add_flat(ty, n):
 
 
 def build():
-    # i32: the whole box rank<=4, len<=3, plus some length-4 axes
-    for s in shapes(4, 3): add_nested("i32", s)
-    for s in ([4], [4, 4], [1, 4], [4, 1], [2, 4, 1], [4, 1, 2], [1, 4, 2, 3], [2, 1, 1, 4], [3, 4, 2]): add_nested("i32", s)
-    # the other element types: the box rank<=4, len<=2, plus some 3s and 4s
-    extra = ([3], [4], [3, 2], [2, 3], [1, 3, 1], [3, 1, 2], [2, 1, 3, 1], [1, 2, 1, 3])
-    for ty in ("f64", "bool", "char", "String", "T2", "T3", "List"):
-        for s in shapes(4, 2): add_nested(ty, s)
-        for s in extra: add_nested(ty, s)
-    for s in ([2], [2, 2], [1, 2, 2], [2, 3]): add_nested("f64i", s)
+    # every shape of the box rank<=4, len<=3 once, dealt over the element types (the generic arm, which exists only
+    # in compiled literals, gets 7 of every 12)
+    seen = set()
+    def once(ty, s):
+        if (ty, tuple(s)) not in seen:
+            seen.add((ty, tuple(s))); add_nested(ty, s)
+    deal = ["i32", "f64", "char", "i32", "String", "bool", "T2", "i32", "T3", "List", "f64", "bool"]
+    for idx, s in enumerate(shapes(4, 3)): once(deal[idx % len(deal)], s)
+    # every element type: the whole box rank<=3, len<=2 (unit axes in every position), plus some 3s and 4s
+    extra = ([3], [4], [2, 3], [3, 1, 2], [1, 2, 1, 3])
+    for ty in ("i32", "f64", "bool", "char", "String", "T2", "T3", "List"):
+        for s in shapes(3, 2): once(ty, s)
+        for s in extra: once(ty, s)
+    for s in ([4, 4], [1, 4], [4, 1], [2, 4, 1], [1, 4, 2, 3], [2, 1, 1, 4], [2, 2, 2, 2], [1, 1, 1, 1]): once("i32", s)
+    for s in ([2], [2, 2], [1, 2, 2]): add_nested("f64i", s)
     for ty in ("T2s", "T3s", "ListS", "ListF"):
-        for s in ([1], [3], [2, 2], [2, 1, 2], [1, 2, 1]): add_nested(ty, s)
+        for s in ([3], [2, 2], [2, 1, 2]): add_nested(ty, s)
     # multi-argument and flat forms
     for ty in ("i32", "f64", "bool", "char", "String", "T2", "T3"):
-        for n in (1, 2, 3, 4): add_args(ty, n)
+        for n in (1, 3): add_args(ty, n)
     for ty in ("i32", "f64", "bool", "char", "String", "T2", "T3", "List", "T2s", "T3s", "ListS"):
-        for n in (1, 2, 3, 4): add_flat(ty, n)
+        for n in (1, 2, 4): add_flat(ty, n)
     # element texts that contain the separators the surgery works with
     def ch(c): d = rust_char_debug(c); return (d, d, d)
     def st(w): d = rust_str_debug(w); return (d, d, d)
